@@ -37,7 +37,7 @@ func init() {
 		Batches:     func(tier string) int { return 16 },
 		Parallel:    func(tier string) int { return 8 },
 		Require: func(tier string) map[string]int64 {
-			return map[string]int64{"scenarios": 600, "directed_runs": 200, "directed_achieved": 40, "quiescent_checks": 600, "closed_checks": 60, "shared_session_scenarios": 60, "store_faults": 40, "panics_injected": 20, "panicking_write_callbacks": 10, "failing_calls": 40, "stale_aborts": 20, "stream_polls": 60, "stream_churns": 10, "blocked_next_closed_by_peer": 30,
+			return map[string]int64{"scenarios": 600, "directed_runs": 200, "directed_achieved": 40, "quiescent_checks": 600, "closed_checks": 60, "shared_session_scenarios": 60, "store_faults": 40, "panics_injected": 20, "panicking_write_callbacks": 10, "failing_calls": 40, "stale_aborts": 20, "abandoned_use_sessions": 30, "stream_polls": 60, "stream_churns": 10, "blocked_next_closed_by_peer": 30,
 				"cancelled_contexts": 60, "hook_events": 20000, "interleavings_recorded": 300}
 		},
 		WorkerTimeoutSec: func(tier string) int {
@@ -107,6 +107,18 @@ func c16Gen(r *fw.Rand) c16Scenario {
 			s.Actors = append(s.Actors, steps)
 			s.Session = append(s.Session, a)
 		}
+		return s
+	}
+	if r.Chance(1, 10) {
+		// UseSession callbacks that leave their transaction open (the other
+		// actors only make short auto-committed writes, so waiting for the slot
+		// always ends unless it was leaked)
+		s.Actors = [][]string{
+			{"use_session_abandon", "write", "use_session_abandon"},
+			{"write", "use_session_abandon", "write"},
+			{"write", "write", fw.Pick(r, []string{"write", "read", "use_session_abandon"})},
+		}
+		s.Session = []int{0, 1, 2}
 		return s
 	}
 	if r.Chance(1, 8) {
@@ -771,6 +783,35 @@ func c16Step(c *fw.Ctx, a *c16Actor, st string, client lungo.IClient, engine *lu
 		dctx, cancel := context.WithTimeout(sctx, 300*time.Millisecond)
 		_, err := coll.Indexes().CreateOne(dctx, mongoIndexModel(bson.D{{Key: "a", Value: int32(1)}}, nil))
 		cancel()
+		note("err=%v", err)
+	case "use_session_abandon":
+		// UseSession whose callback starts a transaction, writes and returns
+		// (with or without an error, or panicking) without finishing it: the
+		// session ends with the call and must give the slot back
+		c.Count("abandoned_use_sessions", 1)
+		variant := a.id % 3
+		if variant == 2 {
+			expectPanic = true
+			c.Count("panics_injected", 1)
+		}
+		wctx, cancel := context.WithTimeout(ctx, 300*time.Millisecond)
+		defer cancel()
+		err := client.UseSession(wctx, func(sc lungo.ISessionContext) error {
+			bctx, bcancel := context.WithTimeout(sc, 300*time.Millisecond)
+			defer bcancel()
+			_ = bctx
+			if err := sc.StartTransaction(); err != nil {
+				return err
+			}
+			coll.InsertOne(sc, bson.D{{Key: "us", Value: int32(a.id)}})
+			switch variant {
+			case 1:
+				return errors.New("callback error")
+			case 2:
+				panic("injected callback panic")
+			}
+			return nil
+		})
 		note("err=%v", err)
 	case "with_txn_ok", "with_txn_err", "with_txn_panic":
 		if st == "with_txn_panic" {
